@@ -38,6 +38,7 @@ Next ==
               post == Observed(r.st, e)
           IN /\ stack' = Append(stack, [spec |-> r.st, obs |-> post])
              \* ---- C15 (registry part), judged on what the real registry did
+             /\ Chk(e.res # "panic", "c15_registry_call_panicked")
              /\ Chk((e.op = "for" /\ e.res = "ok") => ~Top.spec.shut /\ (Top.spec.wm = NoneHV \/ ~Older(<<e.h, e.v>>, Top.spec.wm)),
                     "c15_issued_superseded")
              /\ Chk((e.op = "for" /\ e.res = "ok") => post.status[<<e.h, e.v>>] = "live", "c15_handed_out_cancelled_context")
